@@ -37,6 +37,7 @@ LsTailUnconvertible(e) ==
   LET P == Pairs(Parse(e.fmt), e.args) IN
   \E i \in 1..Len(P) : P[i].it.cv = 115 /\ P[i].it.len = "l" /\ P[i].a.t = "S" /\ WcsBytes(P[i].a.s, e.loc, -1) = <<-1>>
 
+Incomplete(f) == LET P == Parse(f) IN \E i \in 1..Len(P) : P[i].k = "dir" /\ P[i].cv = 0
 JudgePrintf(e) ==
   LET nconv == HasNConv(e.fmt)
       isbuf == e.fn \in BufFns \cup WBufFns
@@ -47,6 +48,7 @@ JudgePrintf(e) ==
   ELSE IF e.fault # "none" THEN {"C01", "C11"}
   ELSE IF ~e.frame_ok THEN {"C01"}
   ELSE IF NChanged(e) THEN {"C09"}
+  ELSE IF ~e.fnull /\ Incomplete(e.fmt) THEN {}          \* the format ends inside a directive: what it produces is undefined, only the accesses are judged
   ELSE IF ArgViol(e) # {} THEN
        (IF e.dnull /\ e.dmax = 0 /\ e.rc >= 0 /\ e.hn = 0 THEN {}               \* documented: count only
         ELSE (IF ReportOK(e) /\ -e.rc \in ArgViol(e) THEN {} ELSE {"C05"})
